@@ -31,13 +31,13 @@ Definition codes_of (e : tev) : list Z :=
   | TCallTask _ => [709; 103; 603]
   | TCallEvent _ => [709; 104; 801]
   | TCallRaw _ => [709; 105]
-  | TWait _ _ _ _ _ _ => [204; 707; 711; 201; 704; 705]
+  | TWait _ _ _ _ _ _ => [204; 707; 711; 201; 704]
   | TRet None _ _ => [1502]
-  | TRet (Some _) _ _ => [202; 203; 602; 708; 902; 403; 404; 407]
+  | TRet (Some _) _ _ => [202; 203; 705; 602; 708; 902; 403; 404; 407]
   | TEnd _ _ => [204; 707; 711; 701; 702; 703]
   | TTear _ => [706]
   | TDone _ => [1802]
-  | THang => [405; 604; 710; 901]
+  | THang => [705; 405; 604; 710; 901]
   | TFatal => [1804]
   | TCrash => [1801]
   | _ => []
@@ -65,24 +65,25 @@ Proof. intros c m b c' N NE H. apply In_fails_chk in H. destruct H as [H|[_ H]];
 Lemma NF_chk_true : forall c m b c', NF c m -> b = true -> NF c (chk m b c').
 Proof. intros c m b c' N E. subst b. exact N. Qed.
 
-Lemma NF_TRet_some : forall m n fds clk c, NF c m -> ~ In c [202; 203; 602; 708; 902; 403; 404; 407] ->
+Lemma NF_TRet_some : forall m n fds clk c, NF c m -> ~ In c [202; 203; 705; 602; 708; 902; 403; 404; 407] ->
   NF c (mon_step m (TRet (Some n) fds clk)).
 Proof.
   intros m n fds clk c N NI. lazy beta iota delta [mon_step]. repeat lift_let.
-  assert (N4 : NF c m4).
-  { unfold m4, m3, m2, m1, m0. repeat (apply NF_chk_ne; [|intros ->; apply NI; cbn; tauto]). exact N. }
-  clearbody m4.
   assert (N5 : NF c m5).
-  { unfold m5. destruct (slept && negb (a_stale m4)); [|exact N4]. destruct (min_expiry m4); [|exact N4].
-    cbv zeta. repeat (apply NF_chk_ne; [|intros ->; apply NI; cbn; tauto]). exact N4. }
-  clearbody m5. unfold m9, m8, m7, m6. intros H.
+  { unfold m5, m4, m3, m2, m1, m0. repeat (apply NF_chk_ne; [|intros ->; apply NI; cbn; tauto]). exact N. }
+  clearbody m5.
+  assert (N6 : NF c m6).
+  { unfold m6. destruct (slept && negb (a_stale m5)); [|exact N5]. destruct (min_expiry m5); [|exact N5].
+    cbv zeta. repeat (apply NF_chk_ne; [|intros ->; apply NI; cbn; tauto]). exact N5. }
+  clearbody m6. unfold m10, m9, m8, m7. intros H.
   cbn [fails m_fds m_tms m_tks m_evs m_rws m_loop m_wait m_iter m_spin] in H. revert H.
-  apply NF_chk_ne; [exact N5|intros ->; apply NI; cbn; tauto].
+  apply NF_chk_ne; [exact N6|intros ->; apply NI; cbn; tauto].
 Qed.
 
 Lemma In_fails_step : forall m e c, In c (fails (mon_step m e)) -> In c (fails m) \/ In c (codes_of e).
 Proof.
-  intros m e c H. destruct e; cbn [codes_of]; try (left; exact H).
+  intros m e c H. destruct e; cbn [codes_of];
+    try (lazymatch type of H with context [TRet] => fail | _ => left; exact H end).
   - unfold mon_step in H. cbv zeta in H. fails_inv H.
     apply In_fails_on_call in H. destruct H as [H|[H|[]]]; [left; assumption|right; subst; cbn; tauto].
   - unfold mon_step in H. cbv zeta in H. fails_inv H.
@@ -96,7 +97,7 @@ Proof.
   - unfold mon_step in H. cbv zeta in H. fails_inv H.
     apply In_fails_close in H. destruct H as [H|H]; [left; assumption|right; cbn in *; tauto].
   - destruct n as [n|].
-    + destruct (in_dec Z.eq_dec c [202; 203; 602; 708; 902; 403; 404; 407]) as [I|NI]; [right; exact I|].
+    + destruct (in_dec Z.eq_dec c [202; 203; 705; 602; 708; 902; 403; 404; 407]) as [I|NI]; [right; exact I|].
       destruct (in_dec Z.eq_dec c (fails m)) as [I|NF0]; [left; exact I|].
       exfalso. exact (NF_TRet_some m n fds clk c NF0 NI H).
     + unfold mon_step in H. cbv zeta in H. fails_inv H. left; exact H.
@@ -144,14 +145,14 @@ Lemma ghost3_TRet_some : forall m n fds clk,
   ghost3 (mon_step m (TRet (Some n) fds clk)) = (ran m, a_rwp m, false).
 Proof.
   intros. lazy beta iota delta [mon_step]. repeat lift_let.
-  assert (E4 : ran m4 = ran m /\ a_rwp m4 = a_rwp m).
-  { unfold m4, m3, m2, m1, m0. autorewrite with monq. split; reflexivity. }
-  clearbody m4.
   assert (E5 : ran m5 = ran m /\ a_rwp m5 = a_rwp m).
-  { unfold m5. destruct (slept && negb (a_stale m4)); [|exact E4]. destruct (min_expiry m4); [|exact E4].
-    cbv zeta. autorewrite with monq. exact E4. }
-  clearbody m5. unfold ghost3, m9, m8, m7, m6. cbn [ran a_rwp a_stale m_iter m_spin m_loop m_wait].
-  autorewrite with monq. destruct E5 as [-> ->]. reflexivity.
+  { unfold m5, m4, m3, m2, m1, m0. autorewrite with monq. split; reflexivity. }
+  clearbody m5.
+  assert (E6 : ran m6 = ran m /\ a_rwp m6 = a_rwp m).
+  { unfold m6. destruct (slept && negb (a_stale m5)); [|exact E5]. destruct (min_expiry m5); [|exact E5].
+    cbv zeta. autorewrite with monq. exact E5. }
+  clearbody m6. unfold ghost3, m10, m9, m8, m7. cbn [ran a_rwp a_stale m_iter m_spin m_loop m_wait].
+  autorewrite with monq. destruct E6 as [-> ->]. reflexivity.
 Qed.
 
 Lemma a_stale_step : forall m e, a_stale (mon_step m e) =
